@@ -3,6 +3,8 @@
   The peer is a universally quantified script (every field value it sends is arbitrary).
   Resumed handshakes: see C06 (`resume_restores_truth`).
 -/
+import CedarProps.C06
+import CedarProps.C07
 import CedarProofs.HandshakeLemmas
 
 namespace Cedar.C03
@@ -179,5 +181,49 @@ example : (clientFull strictClient { honestSrv with auth := "NO", replies := [] 
 example : (clientFull strictClient { honestSrv with key := .absent, postAuth := some ⟨false, some "AUTHORIZED", "s", "u", "1"⟩ }).isOk = false := by decide
 example : (clientFull { strictClient with methods := ["PASSWORD"] }
             { honestSrv with methods := ["PASSWORD", "CLAIMTOBE"] }).isOk = false := by decide
+
+/-! ### REQUIRED authentication and resumed handshakes
+
+The property allows one alternative to "a method ran on this connection": the session that was
+resumed is an authenticated one. These three theorems say the resumption paths check exactly
+that when the local policy marks authentication REQUIRED (`requireAuth = true`). -/
+
+open Cedar.SC in
+/-- a client with Authentication REQUIRED that resumes through its command map resumed an
+    authenticated session -/
+theorem client_resume_required_auth (c : Cache) (now : Nat) (tag addr cmd : Str) (ans : ServerAnswer)
+    (c' : Cache) (sid : Str) (key : Option Nat) (user : String) (auth : Bool)
+    (h : clientTry c now tag addr cmd ans true = (c', .resumed sid key user auth)) : auth = true := by
+  obtain ⟨_, e, _, _, _, _, _, _, _, ha, hr⟩ := C07.resume_only_routed c now tag addr cmd ans true c' sid key user auth h
+  rw [ha]; exact hr rfl
+
+open Cedar.SC in
+/-- the same for a session named explicitly by id -/
+theorem client_explicit_required_auth (c : Cache) (now : Nat) (sid : Str) (ans : ServerAnswer)
+    (c' : Cache) (sid' : Str) (key : Option Nat) (user : String) (auth : Bool)
+    (h : clientById c now sid ans true = (c', .resumed sid' key user auth)) : auth = true := by
+  unfold clientById Cache.lookupNonExpired at h
+  cases hg : c.get sid with
+  | none => simp [hg] at h
+  | some e =>
+    simp only [hg] at h
+    by_cases hx : e.expired now = true
+    · simp [hx] at h
+    · simp only [hx, Bool.false_eq_true, if_false] at h
+      cases hae : e.authenticated with
+      | false => simp [hae] at h
+      | true =>
+        simp only [hae, Bool.not_true, Bool.and_false, Bool.false_eq_true, if_false] at h
+        cases ans <;> simp at h
+        exact h.2.2.2.2
+
+open Cedar.SC in
+/-- a server whose policy for the named command marks authentication REQUIRED and that resumes a
+    session resumed an authenticated one -/
+theorem server_resume_required_auth (c : Cache) (now : Nat) (sid : Str) (want : Bool) (nonce : Nat)
+    (c' : Cache) (reply : ResumeReply) (o : ResumeOutcome)
+    (h : serverResume c now sid want nonce true = (c', reply, some o)) : o.authenticated = true := by
+  obtain ⟨_, _, _, _, _, _, _, _, _, hr⟩ := C06.resume_needs_key c now sid want nonce true c' reply o h
+  exact hr rfl
 
 end Cedar.C03
